@@ -396,6 +396,11 @@ func (kcp *KCP) Send(buffer []byte) int {
 					capacity := int(kcp.mss) - len(seg.data)
 					extend := min(len(buffer), capacity)
 
+					// refuse before taking anything: the rest must fit into 255 segments
+					if (len(buffer)-extend+int(kcp.mss)-1)/int(kcp.mss) > 255 {
+						return -2
+					}
+
 					// grow slice, the underlying cap is guaranteed to
 					// be larger than kcp.mss
 					oldlen := len(seg.data)
